@@ -812,7 +812,8 @@ def _(H):
     from cobra.flux_analysis.room import add_room
 
     _need_finite(H)
-    _helper(H, add_room, linear=H.rng.random() < 0.7)
+    # the MILP form only on small models (GLPK's branch and bound can take minutes)
+    _helper(H, add_room, linear=H.rng.random() < 0.7 or len(H.model.reactions) > 12)
     return {}
 
 
